@@ -418,7 +418,11 @@ impl<'a> Model<'a> {
                         self.fail(MErr::user(p, (p, p), format!("Q{}", g.id)));
                         return None;
                     }
-                    (n, Some(n))
+                    if g.p.ok && g.p.trail {
+                        (n / 2, Some(n))
+                    } else {
+                        (n, Some(n))
+                    }
                 } else {
                     (g.p.lo as usize, g.p.hi.map(|h| h as usize))
                 };
